@@ -119,7 +119,7 @@ def boundary_grid(ctx, n_random):
 def run(ctx):
     ok = common.proofs(ctx, 'C14', EXTRACT, COMPONENTS)
     ctx.assumptions = [
-        'IEEE-754 binary64 semantics of Python float division and exact math.ceil (FloatCeil lemma, once proved; until then the boundary grid ties float to integer ceiling division)',
+        'IEEE-754 binary64 semantics of Python float division (one correctly rounded division of exactly converted operands) and exact math.ceil: under it theorem C14_float_ceiling_is_integer_ceiling (Flocq; standard-library real-number axioms) identifies the code\'s expression with the integer model; the boundary grid cross-checks it on the real interpreter',
         'sizes below 2^53 (5 TiB and 5 GiB are far below)',
         'the extracted OCaml model and its line driver are trusted for the correspondence only',
     ]
